@@ -21,6 +21,9 @@ def U(t):
 
 
 def x_(t, e='a0'):
+    if t.bits == 128 and e == 'a0':
+        # a by-value __int128 argument is passed as two 64-bit halves (x86-64 ABI): a0 = low, a1 = high
+        return '((((vp_u128)a1) << 64) | (vp_u128)a0)'
     return '((%s)%s)' % (U(t), e)
 
 
@@ -181,6 +184,8 @@ def table(types_u, types_s):
             types = types_u
         for ts in types:
             t = T(ts)
+            if t.bits == 128 and fname in ('popcount', 'ispow2'):
+                continue      # inductive step popcount(x) = popcount(x & (x-1)) + 1 against the bit-sum spec: no answer in 300 s at 128 bits
             ens, oracle = fn(t)
             req = []
             if fname == 'ceil2':
@@ -205,7 +210,7 @@ def table(types_u, types_s):
         t = T(ts)
         ens, oracle = FUNCS['countr_zero'][0](t)
         add('_bit_impl.countr_zero.%s' % ts, r'^int cnl::_bit_impl::countr_zero<%s>\(%s\)$' % (dem(ts), dem(ts)),
-            Contract(requires=['a0 != 0'], ensures=ens, assigns=[]))
+            Contract(requires=['%s != 0' % x_(t)], ensures=ens, assigns=[]))
     # countl_rb functor
     for ts in types_u + types_s:
         t = T(ts)
@@ -220,7 +225,7 @@ def table(types_u, types_s):
         for fname in ('rotl', 'rotr'):
             x = x_(t)
             for inner in (False, True):
-                s = '((unsigned)(a1 %% %d))' % N
+                s = '((unsigned)(%s %% %d))' % ('a2' if N == 128 else 'a1', N)
                 if fname == 'rotl':
                     e = '(%s == 0 ? %s : (((%s << %s) | (%s >> (%d - %s))) & %s))' % (s, x, x, s, x, N, s, mask(t))
                 else:
@@ -236,9 +241,9 @@ def table(types_u, types_s):
                     return o
                 if inner:
                     add('_bit_impl.%s.%s' % (fname, ts), r'^auto cnl::_bit_impl::%s<%s>\(%s, unsigned int, unsigned int\)$' % (fname, dem(ts), dem(ts)),
-                        Contract(requires=['a2 == %d' % N], ensures=['((%s)$RET) == %s' % (u, e)], assigns=[]),
+                        Contract(requires=['%s == %d' % ('a3' if N == 128 else 'a2', N)], ensures=['((%s)$RET) == %s' % (u, e)], assigns=[]),
                         'return cnl::_bit_impl::%s(a, s, %du);' % (fname, N), orc(fname, N), [ts, 'u32'], ts,
-                        harness_pre='vp_in2 = %d;' % N, cex_filter=lambda l: l[:2])
+                        harness_pre='vp_in%d = %d;' % (3 if N == 128 else 2, N), cex_filter=lambda l: l[:2])
                 else:
                     add('%s.%s' % (fname, ts), r'^auto cnl::%s<%s>\(%s, unsigned int\)$' % (fname, dem(ts), dem(ts)),
                         Contract(requires=[], ensures=['((%s)$RET) == %s' % (u, e)], assigns=[]),
@@ -303,7 +308,7 @@ def plan(tier):
             'explanation': 'each bit utility proved equal to a closed bit-vector characterisation of the C++20 <bit> definition for all values of each width; '
                            'recursive definitions proved inductively (goto-instrument --enforce-contract-rec: the recursive call is replaced by the contract under proof), '
                            'callers proved against callee contracts',
-            'not_applicable_parts': ['std::bit_ceil is undefined when the result is not representable: ceil2 is specified for x <= 2^(N-1) only',
+            'not_applicable_parts': ['popcount / ispow2 at 128 bits (inductive step beyond the SAT budget)', 'std::bit_ceil is undefined when the result is not representable: ceil2 is specified for x <= 2^(N-1) only',
                                      'termination of the recursive definitions is not proved by the inductive route (partial correctness); '
                                      'depth is bounded by the operand width by inspection of the shift in each recursive call'],
             'assumptions': []}
